@@ -9,12 +9,15 @@ LEVEL = 'other'
 EXPLANATION = """
 Decides on the MIR of both splice loops (Automaton::try_replace_all_with and ..._with_bytes) and of the two table variants, for
 every path and hence for every haystack, pattern list and closure behaviour: R12.1 the loop iterates
-self.try_find_iter(Input::new(haystack))? with the caller's haystack and no other input configuration; R12.2 per iteration the
-events are append haystack[last_match .. m.start()], last_match = m.end(), call the closure with (&m, haystack[m.start()..m.end()],
-dst), in this order, all or none; last_match has exactly the definitions 0 and m.end(); the closure's false result leaves the
-loop and both exits append haystack[last_match..] before Ok; R12.3 (&str variant) none of the events is reachable once the true
-edges of is_char_boundary(m.start()) / is_char_boundary(m.end()) are removed, and skipping is only possible through a failed
-boundary test; R12.4 the table variants assert replace_with.len() == patterns_len() before anything else, their closure appends
+self.try_find_iter(Input::new(haystack))? with the caller's haystack and no other input configuration; R12.2 is one statement on the
+loop's iteration summaries (every way through one iteration, with the values each append / closure call receives): matches
+exhausted => append haystack[last_match..], Ok; otherwise append haystack[last_match .. m.start()] with last_match as it was when the
+iteration began, call the closure with (&m, haystack[m.start()..m.end()], dst), last_match = m.end(); closure result true continues,
+false appends haystack[m.end()..] and returns Ok; before the loop dst is untouched, last_match = 0 and only an error of
+try_find_iter returns; nothing else touches dst; R12.3 (&str variant) a match is spliced only on paths where
+is_char_boundary(m.start()) and is_char_boundary(m.end()) were both true, and a failed test skips the match with no event and an
+unchanged cursor (the bytes variant has neither test nor skip);
+R12.4 the table variants assert replace_with.len() == patterns_len() before anything else, their closure appends
 replace_with[mat.pattern()] to the destination it is given and returns true, and the returned buffer is the one that was filled;
 R12.5 AhoCorasick::try_replace_all* pass their arguments through unchanged.
 """
@@ -75,137 +78,165 @@ def splice_loop(cx, b, is_str):
     cx.report('R12.1', b, 'next', okn, 'the loop variable is the payload of next() on that iterator' if okn else 'the loop does not draw its matches from next() of the try_find_iter result')
     if len(nexts) != 1:
         return
-    header = nexts[0][0]
-    ng = discr_gates(b, lambda x: is_call(x, r'Iterator::next$'))
-    some = [e for g in ng for e in arm_edges(b, g, 1)]
-    okm = len(some) == 1
-    cx.report(R, b, 'm-def', okm, 'the loop body runs on the Some-payload of iterator.next()' if okm else 'no unique Some-arm of iterator.next()')
-    if not okm:
+    splice_rows(cx, b, is_str, nexts[0][0])
+
+
+def splice_rows(cx, b, is_str, next_block):
+    """R12.2 / R12.3 as a statement on the iteration summaries of the splice loop (one row = one way through one iteration, with
+    the values every append / closure call receives), so the spelling of the loop (for / while let / `all` with a closure, named
+    intermediates, m.start() vs m.span().start) does not matter."""
+    from acverif.sym import Sym, loop_rows, innermost_loop, canon, cstr
+    R = 'R12.2'
+    HAY, DST, RW = (cstr(param_at(b, i)) for i in (2, 3, 4))
+    h = innermost_loop(b, next_block)
+    if h is None:
+        cx.bad(R, b, 'loop', 'the splice loop around next() was not found')
         return
-    mblk = some[0][1]
-    back = [(s, header) for s in b.pred(header) if b.dominates(header, s)]
+    rows = [r for r in loop_rows(cx.facts, b, h) if r.end != 'diverge']
+    sym = Sym(cx.facts, b)
+    mods, _ = sym.loop_mods(h)
+    cursors = {l: cstr(sym.default_local(l)) for l in mods if b.locals[l]['ty'] == 'usize'}
 
-    def is_m(t):
-        t = ex(t)
-        return t[0] == 'f' and t[2] == '0' and t[1][0] == 'dc' and t[1][2] == 'Some' and is_call(ex(t[1][1]), r'Iterator::next$')
-
-    def is_start(t):
-        t = ex(t)
-        return is_call(t, r'util::search::Match::start$') and is_m(t[2][0])
-
-    def is_end(t):
-        t = ex(t)
-        return is_call(t, r'util::search::Match::end$') and is_m(t[2][0])
-
-    def is_m_range(r):
-        """m.start()..m.end() in any spelling"""
-        r = ex(r)
-        if is_agg(r, r'core::ops::Range$') and isinstance(r[3], dict):
-            return is_start(r[3].get('start')) and is_end(r[3].get('end'))
-        if is_call(r, r'util::search::Match::range$'):
-            return is_m(r[2][0])
-        if is_call(r, r'util::search::Span::range$'):
-            s = ex(r[2][0])
-            return is_call(s, r'util::search::Match::span$') and is_m(s[2][0])
-        return False
-    # events
-    e1 = e3 = e5 = None
-    LM = None
-    appends = []
-    for blk, t in b.calls():
-        ct = b.call_term(blk, t)
-        if re.search(APPEND, short(ct[1])) and ex(ct[2][0]) == dst:
-            ix = index_of(expand_vars(b, ct[2][1]))
-            appends.append((blk, ix, ct))
-            if ix and ex(ix[0]) == hay and is_agg(ix[1], r'core::ops::Range$') and isinstance(ix[1][3], dict) and is_var(ix[1][3].get('start')) and is_start(ix[1][3].get('end')):
-                e1 = blk
-                LM = ix[1][3].get('start')
-    if LM is None:
-        cx.bad(R, b, 'E1-prefix', 'no append of haystack[<copied-so-far>..m.start()] to dst found')
+    def nxt(c):
+        c = canon(c)
+        return c[0] == 'discr' and is_call(c[1], r'Iterator::next$')
+    nx = [canon(c)[1] for r in rows for c, v in r.conds if nxt(c)]
+    if not nx or len({cstr(x) for x in nx}) != 1:
+        cx.bad(R, b, 'm-def', 'no unique next() decision in the loop')
         return
-    lm = [LM[2]]
-    for blk, ix, ct in appends:
-        if ix and ex(ix[0]) == hay and is_agg(ix[1], r'core::ops::RangeFrom$') and isinstance(ix[1][3], dict) and ix[1][3].get('start') == LM:
-            e5 = blk
-    for blk, t in b.calls():
-        ct = b.call_term(blk, t)
-        if is_call(ct, r'core::ops::FnMut::call_mut$') and ex(ct[2][0]) == RW:
-            tup = ct[2][1]
-            if is_agg(tup, 'tuple') and len(tup[3]) == 3:
-                a0, a1, a2 = tup[3]
-                ix = index_of(expand_vars(b, a1))
-                good = is_m(a0) and ex(a2) == dst and ix and ex(ix[0]) == hay and is_m_range(ix[1])
-                if good:
-                    e3 = blk
-                else:
-                    cx.bad(R, b, 'closure-args', 'closure is called with %s, expected (&m, &haystack[m.start()..m.end()], dst)' % tstr(tup, 300), line_of(b, blk))
-    # other appends to dst are foreign
-    for blk, ix, ct in appends:
-        if blk not in (e1, e5):
-            cx.bad(R, b, 'foreign-append', 'unexpected append to dst: %s' % tstr(ct, 200), line_of(b, blk))
-    cx.report(R, b, 'E1-prefix', e1 is not None, 'appends haystack[last_match..m.start()] to dst' if e1 is not None else 'no append of haystack[last_match..m.start()] to dst found')
-    cx.report(R, b, 'E3-closure', e3 is not None, 'calls replace_with(&m, &haystack[m.start()..m.end()], dst)' if e3 is not None else 'closure call with the matched bytes not found')
-    cx.report(R, b, 'E5-tail', e5 is not None, 'appends haystack[last_match..] to dst' if e5 is not None else 'no append of haystack[last_match..] found')
-    # last_match definitions
-    defs = b.defs().get(lm[0], [])
-    e2 = None
-    okd = True
-    seen0 = False
-    for bi, si, kind, obj in defs:
-        tt = b.call_term(bi, obj) if kind == 'call' else b.rvalue_term(obj['r'], 0, bi)
-        if is_const(tt, 0) and bi not in b.loops().get(header, set()):
-            seen0 = True
-        elif is_end(tt):
-            e2 = bi
+    M = cstr(('f', ('dc', nx[0], 'Some'), '0'))
+    MS, ME = M + '.span.start', M + '.span.end'
+
+    def rng(t):
+        """haystack[a..b] / haystack[a..] -> (a, b|None)"""
+        t = canon(t)
+        while isinstance(t, tuple) and t[0] in ('ref', 'deref') and isinstance(t[-1], tuple):
+            t = t[-1]
+        if is_call(t, r'core::ops::Index::index$') and len(t[2]) == 2 and cstr(t[2][0]) == HAY:
+            r0 = t[2][1]
+            if is_agg(r0, r'core::ops::Range$') and isinstance(r0[3], dict):
+                return cstr(r0[3].get('start')), cstr(r0[3].get('end'))
+            if is_agg(r0, r'core::ops::RangeFrom$') and isinstance(r0[3], dict):
+                return cstr(r0[3].get('start')), None
+        return 'other'
+
+    def events(r):
+        ev = []
+        for e in r.effects:
+            if e[0] == 'call':
+                c = canon(e[1])
+                sp = short(c[1])
+                args = [cstr(a) for a in c[2]]
+                if re.search(APPEND, sp) and args and args[0] == DST:
+                    ev.append(('append', rng(c[2][1])))
+                elif is_call(c, r'FnMut::call_mut$') and args and args[0] == RW:
+                    ev.append(('rw', c[2][1]))
+                elif DST in args:
+                    ev.append(('foreign', tstr(c, 120)))
+            elif e[0] == 'store' and cstr(canon(e[1])).startswith(DST):
+                ev.append(('foreign', 'store to %s' % tstr(canon(e[1]), 60)))
+        return ev
+    # the cursor: the loop-carried usize the appends start at
+    starts = {ev[1][0] for r in rows for ev in events(r) if ev[0] == 'append' and isinstance(ev[1], tuple)}
+    lms = [l for l, d in cursors.items() if d in starts]
+    if len(lms) != 1:
+        cx.bad(R, b, 'E1-prefix', 'no append of haystack[<copied-so-far>..m.start()] to dst found (loop-carried cursors: %s)' % sorted(cursors.values()))
+        return
+    LM = lms[0]
+    D = cursors[LM]
+    why = {k: None for k in ('E1-prefix', 'E2-update', 'E3-closure', 'E5-tail', 'closure-result', 'foreign-append', 'skip', 'boundary')}
+    n_splice = n_tail = n_skip = 0
+
+    def bcond(r, which):
+        return r.cond(lambda c: is_call(canon(c), r'is_char_boundary$') and cstr(canon(c)[2][0]) == HAY and cstr(canon(c)[2][1]) == which)
+
+    def rwres(r):
+        return r.cond(lambda c: is_call(canon(c), r'FnMut::call_mut$') and cstr(canon(c)[2][0]) == RW)
+    for r in rows:
+        ev = events(r)
+        for k, x in ev:
+            if k == 'foreign':
+                why['foreign-append'] = why['foreign-append'] or 'dst is also touched by %s' % x
+        ev = [e for e in ev if e[0] != 'foreign']
+        some = r.cond(nxt)
+        if isinstance(some, tuple) and some[0] == 'not':
+            # `while let Some(m) = it.next()`: one arm is the default of the switch
+            some = 0 if 1 in some[1] else (1 if 0 in some[1] else None)
+        moved = LM in r.env and cstr(canon(r.env[LM])) != D
+        if some == 0:
+            n_tail += 1
+            if ev != [('append', (D, None))] or r.end != 'return' or not is_agg(r.ret, r'Result$', 'Ok'):
+                why['E5-tail'] = why['E5-tail'] or 'when the matches are exhausted the events are %s (expected: append haystack[last_match..], then Ok)' % [e[:2] if e[0] == 'append' else e[0] for e in ev]
+            continue
+        if some != 1:
+            why['E1-prefix'] = why['E1-prefix'] or 'an iteration does not depend on next()'
+            continue
+        bs, be = bcond(r, MS), bcond(r, ME)
+        if not is_str and (bs is not None or be is not None):
+            why['boundary'] = why['boundary'] or 'unexpected boundary filter in the bytes variant'
+        if bs is False or be is False:
+            # a skipped match: nothing happens
+            n_skip += 1
+            if ev or moved or r.end != ('stop', h):
+                why['skip'] = why['skip'] or 'a match that fails a boundary test is not skipped cleanly (events %s, cursor moved: %s)' % ([e[0] for e in ev], moved)
+            continue
+        if is_str and not (bs is True and be is True):
+            why['boundary'] = why['boundary'] or 'a match is spliced although is_char_boundary was not checked for m.start() and m.end()'
+        n_splice += 1
+        if not ev or ev[0] != ('append', (D, MS)):
+            why['E1-prefix'] = why['E1-prefix'] or 'an iteration starts with %s (expected: append haystack[last_match..m.start()])' % (ev[0][:2] if ev else 'nothing')
+            continue
+        if len(ev) < 2 or ev[1][0] != 'rw':
+            why['E3-closure'] = why['E3-closure'] or 'the prefix append is not followed by the closure call'
+            continue
+        tup = ev[1][1]
+        good = is_agg(tup, 'tuple') and len(tup[3]) == 3 and cstr(tup[3][0]) == M and rng(tup[3][1]) == (MS, ME) and cstr(tup[3][2]) == DST
+        if not good:
+            why['E3-closure'] = why['E3-closure'] or 'closure is called with %s, expected (&m, &haystack[m.start()..m.end()], dst)' % tstr(tup, 200)
+        if not (LM in r.env and cstr(canon(r.env[LM])) == ME):
+            why['E2-update'] = why['E2-update'] or 'after a splice last_match is %s (expected m.end())' % (tstr(canon(r.env[LM]), 60) if LM in r.env else 'unchanged')
+        res = rwres(r)
+        rest = ev[2:]
+        if res is True:
+            if rest or r.end != ('stop', h):
+                why['closure-result'] = why['closure-result'] or 'after the closure returned true the iteration does not simply continue'
+        elif res is False:
+            if rest != [('append', (ME, None))] or r.end != 'return' or not is_agg(r.ret, r'Result$', 'Ok'):
+                why['closure-result'] = why['closure-result'] or 'after the closure returned false the events are %s (expected: append haystack[m.end()..], then Ok)' % [e[:2] if e[0] == 'append' else e[0] for e in rest]
         else:
-            okd = False
-            cx.bad(R, b, 'last_match-def', 'last_match is assigned %s (allowed: 0 before the loop, m.end())' % tstr(tt, 120), line_of(b, bi, si))
-    okd = okd and seen0 and e2 is not None and not b.defs().get(('proj', lm[0]))
-    cx.report(R, b, 'E2-update', okd, 'last_match has exactly the definitions 0 (before the loop) and m.end()' if okd else 'last_match definitions are not {0, m.end()}')
-    if None in (e1, e2, e3, e5):
-        return
-    # order and all-or-none within an iteration (back edges removed)
-    o12 = e2 in b.reach(e1, cut_edges=back) and e1 not in b.reach_after(e2, cut_edges=back)
-    cx.report(R, b, 'order:E1<E2', o12, 'the prefix is appended before last_match is advanced' if o12 else 'last_match is advanced before haystack[last_match..m.start()] is appended (or the append can be skipped)')
-    exits = [e5]
-    for (a, nxt, what) in ((e1, e2, 'update of last_match'), (e2, e3, 'closure call')):
-        r = b.reach_after(a, cut_blocks=[nxt], cut_edges=())
-        ok = header not in (r - {nxt}) and e5 not in (r - {nxt})
-        # r contains nxt if reached; must not reach header/e5 without passing nxt
-        r2 = b.reach(a, cut_blocks=[nxt]) - {a}
-        ok = not ({header, e5} & (r2 - {nxt}))
-        cx.report(R, b, 'pairing:%s' % what.split()[0], ok, 'once the %s is reached, the %s follows before the next iteration or the exit' % ('prefix append' if a == e1 else 'update', what) if ok else 'a path skips the %s' % what)
-    # closure result: false leaves the loop, true continues
-    cg = bool_gates(b, lambda x: is_call(x, r'FnMut::call_mut$') and ex(x[2][0]) == RW)
-    okc = False
-    if len(cg) == 1:
-        blk, cond, te, fe = cg[0]
-        t_ok = all(header in b.reach(tg, cut_blocks=[e5]) for _, tg in te)
-        f_ok = all(header not in b.reach(tg, cut_blocks=[e5]) and e5 in b.reach(tg) for _, tg in fe)
-        okc = t_ok and f_ok
-    cx.report(R, b, 'closure-result', okc, 'closure result false leaves the loop (to the tail append), true continues' if okc else 'the closure result does not decide loop exit as specified')
-    # tail append on every path to Ok
-    oks = [bi for bi, si, pl, st in b.stores() if si != 'term' and pl['l'] == 0 and not pl['pr'] and is_agg(b.rvalue_term(st['r'], 0, bi), r'Result$', 'Ok')]
-    okt = bool(oks) and must_pass(b, oks, [e5])
-    cx.report(R, b, 'tail-before-Ok', okt, 'every path to Ok(()) appends haystack[last_match..] first' if okt else 'Ok(()) is reachable without the tail append')
-    # skipping
-    bt = bool_gates(b, lambda x: is_call(x, r'core::str::(<impl str>::)?is_char_boundary$') and ex(x[2][0]) == hay and (is_start(x[2][1]) or is_end(x[2][1])))
+            why['closure-result'] = why['closure-result'] or 'the closure result does not decide whether the loop goes on'
+    if not n_splice:
+        why['E1-prefix'] = why['E1-prefix'] or 'no iteration splices a match'
+    if not n_tail:
+        why['E5-tail'] = why['E5-tail'] or 'no exit through exhausted matches'
+    # before the loop: the cursor starts at 0, dst is not touched, and nothing but an error of try_find_iter returns early
+    okz = False
+    try:
+        allpre = [r for r in Sym(cx.facts, b, start=0, stop={h}).rows() if r.end != 'diverge']
+        pre = [r for r in allpre if r.end == ('stop', h)]
+        okz = bool(pre) and all(LM in r.env and canon(r.env[LM]) == ('c', 0) for r in pre)
+        for r in allpre:
+            ev = events(r)
+            if ev:
+                why['foreign-append'] = why['foreign-append'] or 'dst is touched before the loop (%s)' % [e[0] for e in ev]
+            if r.end == 'return' and not (is_agg(r.ret, r'Result$', 'Err') or is_call(r.ret, r'from_residual$')):
+                why['foreign-append'] = why['foreign-append'] or 'the function can return %s before the loop' % tstr(canon(r.ret), 60)
+    except Exception:
+        okz = False
+    if not okz:
+        why['E2-update'] = why['E2-update'] or 'last_match does not start at 0'
+    cx.report(R, b, 'E1-prefix', why['E1-prefix'] is None, 'every spliced match first appends haystack[last_match..m.start()] (last_match as it was when the iteration began)' if why['E1-prefix'] is None else why['E1-prefix'])
+    cx.report(R, b, 'E3-closure', why['E3-closure'] is None, 'then calls replace_with(&m, &haystack[m.start()..m.end()], dst)' if why['E3-closure'] is None else why['E3-closure'])
+    cx.report(R, b, 'E2-update', why['E2-update'] is None, 'last_match starts at 0 and is m.end() after every splice, unchanged otherwise' if why['E2-update'] is None else why['E2-update'])
+    cx.report(R, b, 'E5-tail', why['E5-tail'] is None, 'when the matches are exhausted haystack[last_match..] is appended, then Ok' if why['E5-tail'] is None else why['E5-tail'])
+    cx.report(R, b, 'closure-result', why['closure-result'] is None, 'closure result true continues; false appends haystack[m.end()..] and returns Ok' if why['closure-result'] is None else why['closure-result'])
+    cx.report(R, b, 'foreign-append', why['foreign-append'] is None, 'dst is touched by nothing else' if why['foreign-append'] is None else why['foreign-append'])
     if is_str:
-        gs = [g for g in bt if is_start(g[1][2][1])]
-        ge = [g for g in bt if is_end(g[1][2][1])]
-        for tag, gg in (('start', gs), ('end', ge)):
-            cut = [e for g in gg for e in g[2]]
-            ok = bool(gg) and not reachable_without(b, [e1, e2, e3], cut, src=mblk)
-            cx.report('R12.3', b, 'boundary:' + tag, ok, 'no splice event is reachable without is_char_boundary(m.%s()) being true' % tag if ok else 'a splice event is reachable although m.%s() was not checked to be a char boundary' % tag)
-        fcut = [e for g in bt for e in g[3]]
-        r = b.reach(mblk, cut_edges=fcut, cut_blocks=[e1])
-        ok = not ({header, e5} & (r - {e1}))
-        cx.report('R12.3', b, 'skip-only-on-failed-test', ok, 'an iteration skips the splice only through a failed boundary test' if ok else 'an iteration can skip the splice although both boundary tests passed')
+        cx.report('R12.3', b, 'boundary', why['boundary'] is None, 'a match is spliced only after is_char_boundary(m.start()) and is_char_boundary(m.end()) were both true' if why['boundary'] is None else why['boundary'])
+        oks = why['skip'] is None and n_skip >= 1
+        cx.report('R12.3', b, 'skip-only-on-failed-test', oks, 'an iteration skips the splice only through a failed boundary test, and then does nothing' if oks else (why['skip'] or 'no skip path for a failed boundary test'))
     else:
-        r = b.reach(mblk, cut_blocks=[e1])
-        ok = not ({header, e5} & (r - {e1}))
-        cx.report(R, b, 'no-skip', ok, 'every match is spliced (no path from m to the next iteration avoids the prefix append)' if ok else 'a path skips the splice for some match')
-        cx.report(R, b, 'no-boundary-filter', not bt, 'bytes variant has no char-boundary filter' if not bt else 'unexpected boundary filter in the bytes variant')
+        cx.report(R, b, 'no-boundary-filter', why['boundary'] is None and n_skip == 0, 'bytes variant: every match is spliced (no boundary filter, no skip)' if why['boundary'] is None and n_skip == 0 else (why['boundary'] or 'a match can be skipped'))
 
 
 def r12_loops(cx):
@@ -290,21 +321,40 @@ def r12_4(cx):
 
 
 def r12_5(cx):
+    """the AhoCorasick wrappers are pure forwarders: on every path the one thing that happens to the caller's haystack, buffer and
+    table / closure is the call of the Automaton routine with exactly these arguments"""
+    from acverif.sym import summarize, canon, cstr
     n = 0
     for name in ('try_replace_all', 'try_replace_all_bytes', 'try_replace_all_with', 'try_replace_all_with_bytes'):
         b = cx.body('ahocorasick::AhoCorasick::' + name)
-        calls = b.calls(r'^automaton::Automaton::%s$' % name)
-        ok = False
-        why = 'no delegate call'
-        if len(calls) == 1:
-            ct = b.call_term(calls[0][0], calls[0][1])
-            params = [('v', b.locals[i]['names'][0], i) for i in range(2, b.j['arg_count'] + 1)]
-            got = [peel(a) for a in ct[2][1:]]
-            recv = peel(ct[2][0])
-            ok = got == params and recv[0] == 'f' and recv[2] == 'aut' and is_var(recv[1], 'self')
-            why = 'delegates as %s' % tstr(ct, 200)
+        P = [cstr(param_at(b, i)) for i in range(2, b.j['arg_count'] + 1)]
+        rows = [r for r in summarize(cx.facts, b)]
+        why = None if rows else 'no path'
+        for r in rows:
+            inner = []
+            for e in r.effects:
+                if e[0] == 'call':
+                    c = canon(e[1])
+                    args = [cstr(a) for a in c[2]]
+                    if re.search(r'^automaton::Automaton::%s$' % name, short(c[1])):
+                        inner.append(c)
+                        if args[1:] != P or not re.search(r'(^|\W)self\.aut\b', args[0]):
+                            why = why or 'delegates as %s' % tstr(c, 200)
+                    elif any(a in P or any(a.startswith(x + '.') or ('(' + x + ')') in a or ('(' + x + ',') in a or (', ' + x + ')') in a for x in P) for a in args):
+                        why = why or 'the wrapper itself uses an argument: %s' % tstr(c, 160)
+                elif e[0] == 'store' and any(cstr(canon(e[1])).startswith(x) for x in P):
+                    why = why or 'the wrapper itself writes through an argument'
+            if r.end == 'return':
+                if not inner and (is_agg(canon(r.ret), r'Result$', 'Err') or is_call(canon(r.ret), r'from_residual$')):
+                    continue        # the start-kind check refused the search
+                if len(inner) != 1:
+                    why = why or 'a path returns after %d delegate calls' % len(inner)
+                elif cstr(canon(r.ret)) != cstr(inner[0]):
+                    why = why or 'the result of the delegate is not returned unchanged (%s)' % tstr(canon(r.ret), 100)
+            elif r.end == 'diverge' and not inner:
+                why = why or 'the wrapper can panic before delegating'
         n += 1
-        cx.report('R12.5', b, 'passthrough', ok, 'forwards (haystack, …) unchanged to self.aut.%s' % name if ok else why)
+        cx.report('R12.5', b, 'passthrough', why is None, 'forwards (haystack, …) unchanged to self.aut.%s and does nothing else with them' % name if why is None else why)
     cx.floor('R12.5', 'AhoCorasick replace wrappers', n, 4)
 
 
@@ -320,4 +370,4 @@ trivial inputs; the rules hold for all haystacks, closures and match sequences a
 NOTE = """Trusted: rustc MIR construction; the fact extractor; std slicing/append semantics. The match sequence itself is C01/C02. Anchors are
 def-paths; locals are resolved by role (parameter position, type, data flow), parameters and fields by the reference names restored at
 load time (rename maps of E6)."""
-TECHNIQUE = "static analysis: role-based term reconstruction of slice bounds and call arguments from rustc MIR (no local names), graph-cut and ordering queries on the CFG with path-sensitive boolean flow"
+TECHNIQUE = "static analysis: loop-iteration summaries (path-sensitive value flow over rustc MIR, spelling-independent) of the two splice loops, term matching of slice bounds and closure arguments, graph cuts for the table variants"
